@@ -203,6 +203,14 @@ def run(rep: Report, prog: Program, tier: str) -> None:
             rep.ok("R18.2")
     rep.floor("R18.2", 12)
 
+    rep.rule("R18.3", "the envelopes hold for NaN too: in every min / max clamp of the built-in strategies the NaN-free bound is the first argument (CPython's min/max return their first argument when comparisons with NaN are false), so a NaN from random.uniform over an infinite range or from a misbehaving fallback cannot leave through the clamp")
+    from .floats import nan_safe_clamps
+
+    n_cl = nan_safe_clamps(rep, "R18.3", prog, {q: results[q][1] for q in results})
+    if n_cl < 6:
+        raise AnalysisError(f"R18.3: only {n_cl} min/max clamps found in the strategies")
+    rep.floor("R18.3", 6)
+
 
 def is_cap(t: Any, base_s: Any, max_s: Any, g: float) -> bool:
     """min(max_s, base_s * g**E) with E = attempt or a clamp of attempt whose power is finite"""
@@ -235,3 +243,4 @@ def fmt(f) -> str:
     if f[0] != 0 or not parts:
         parts.append(str(f[0]))
     return " + ".join(parts)
+
